@@ -23,7 +23,7 @@ import (
 	"verif/harness/vkit"
 )
 
-var concParamKinds = []string{"custom", "prompt", "locales", "mode"}
+var concParamKinds = []string{"custom", "prompt", "locales", "mode", "mode:form_post", "fn:ui_locales=de+en&login_hint=u1"}
 
 func genConc(t *rapid.T) Case {
 	var c Case
@@ -74,6 +74,8 @@ func (w *world) runConc(cc *Conc) {
 			params = append(params, rp.WithURLParam("ui_locales", "de en"))
 		case "mode":
 			params = append(params, rp.WithResponseModeURLParam(oidc.ResponseModeQuery))
+		default:
+			params = append(params, w.urlParamOpts("conc", []string{p})...)
 		}
 	}
 	logins := cc.Logins
